@@ -155,5 +155,5 @@ Example hanging_body :
   let g := mkRb 0%nat 0%nat z3 (0, z3, (z3, z3)) z z z z z3 z3 in
   let b := mkRb 1%nat 0%nat (1,0,0) (2, z3, ((1,1,1), z3)) z z (z3, (0,0,-2)) z (0,1,0) (1,0,0) in
   map (fun xr => (r_idx (fst xr), snd xr)) (flatten (reactionsAtOrigin ROps (mkTree g [b])))
-  = [(0%nat, ((0,2,0) : Vec3 R, (0,0,2) : Vec3 R)); (1%nat, (z3, (0,0,2)))].
-Proof. cbv zeta. cbn. unfold gyroForce, uspMul. cbn. sfunf. repeat f_equal; teq; ring. Qed.
+  = [(0%nat, ((0,-2,0) : Vec3 R, (0,0,2) : Vec3 R)); (1%nat, (z3, (0,0,2)))].
+Proof. cbv -[Rplus Rminus Rmult Ropp Rdiv Rinv IZR]. apply f_equal2; [|apply f_equal2; [|reflexivity]]; apply f_equal; teq; ring. Qed.
